@@ -5,7 +5,7 @@ From Cffi Require Import C25.Model C07.Model C07.Realize C07.PyModel C07.Lexer C
 
 Local Open Scope nat_scope.
 
-Definition is_err {A} (r : res A) : Prop := match r with Err _ _ _ => True | _ => False end.
+Definition is_err {A} (r : res A) : Prop := match r with Err _ _ => True | _ => False end.
 
 Lemma is_err_bind {A B} (r : res A) (f : A -> res B) : is_err r -> is_err (bind r f).
 Proof. destruct r; cbn; tauto. Qed.
@@ -200,56 +200,7 @@ Proof.
      bind (if (negb (mlen =? 0)%Z || negb (msign =? 0)%Z)%bool then
              bind (base_with_modifiers t2 mlen msign) (fun '(t3, op) => Ok (t3, op, 0%Z))
            else
-             bind (match t_kind t2 with
-                   | KKw K_int => Ok (t2, OP OP_PRIMITIVE PRIM_INT, 0%Z)
-                   | KKw K_char => Ok (t2, OP OP_PRIMITIVE PRIM_CHAR, 0%Z)
-                   | KKw K_void => Ok (t2, OP OP_PRIMITIVE PRIM_VOID, 0%Z)
-                   | KKw K_Bool => Ok (t2, OP OP_PRIMITIVE PRIM_BOOL, 0%Z)
-                   | KKw K_float => Ok (t2, OP OP_PRIMITIVE PRIM_FLOAT, OP OP_PRIMITIVE PRIM_FLOATCOMPLEX)
-                   | KKw K_double => Ok (t2, OP OP_PRIMITIVE PRIM_DOUBLE, OP OP_PRIMITIVE PRIM_DOUBLECOMPLEX)
-                   | KIdent =>
-                     match search_sorted (c_typenames cx) (tok_text t2) with
-                     | Some n => Ok (t2, OP OP_TYPENAME (Z.of_nat n), 0%Z)
-                     | None =>
-                       match search_standard_typename (tok_text t2) with
-                       | Some n => Ok (t2, OP OP_PRIMITIVE n, 0%Z)
-                       | None =>
-                         match get_common_type (tok_text t2) with
-                         | Some replacement =>
-                           match parse_from osz cx f replacement (t_out t2) with
-                           | Ok (out', n) => Ok (with_out t2 out', OP OP_NOOP n, 0%Z)
-                           | Err _ _ o => Err E_internal (t_pos t2) o
-                           | Fault => Fault
-                           end
-                         | None => parse_error t2 E_undefined_type
-                         end
-                       end
-                     end
-                   | KKw K_struct | KKw K_union =>
-                     let is_union := is_kw t2 K_union in
-                     let t3 := next_token t2 in
-                     if negb (kind_eqb (t_kind t3) KIdent) then parse_error t3 E_su_name
-                     else
-                       match search_sorted (map fst (c_structs cx)) (tok_text t3) with
-                       | None =>
-                         if (negb is_union && str_eqb (tok_text t3) (s2l "_IO_FILE"))%bool
-                         then Ok (t3, OP OP_STRUCT_UNION IO_FILE_STRUCT, 0%Z)
-                         else parse_error t3 E_undefined_su
-                       | Some n =>
-                         if xorb (snd (nth n (c_structs cx) ([], false))) is_union
-                         then parse_error t3 E_wrong_kind
-                         else Ok (t3, OP OP_STRUCT_UNION (Z.of_nat n), 0%Z)
-                       end
-                   | KKw K_enum =>
-                     let t3 := next_token t2 in
-                     if negb (kind_eqb (t_kind t3) KIdent) then parse_error t3 E_enum_name
-                     else
-                       match search_sorted (c_enums cx) (tok_text t3) with
-                       | None => parse_error t3 E_undefined_enum
-                       | Some n => Ok (t3, OP OP_ENUM (Z.of_nat n), 0%Z)
-                       end
-                   | _ => parse_error t2 E_identifier
-                   end) (fun '(t3, op, cplx) => Ok (next_token t3, op, cplx)))
+             bind (base_plain cx (parse_from osz cx f) t2) (fun '(t3, op, cplx) => Ok (next_token t3, op, cplx)))
           (fun '(t5, t1op, t1complex) =>
      bind (if is_kw t5 K_Complex then
              if (t1complex =? 0)%Z then parse_error t5 E_complex
@@ -321,7 +272,7 @@ Proof.
              try (split; [lia|]; replace (p + S n1) with (i + List.length q1 + S n1) by (unfold p; lia); reflexivity).
            exact I.
   - (* no modifier *)
-    rewrite kind_T.
+    unfold base_plain. rewrite kind_T.
     destruct (skipn n1 ws) as [|w r] eqn:E.
     + subst n1.
       destruct Hfol as [Hf0|[[c Hf0]|[Hf0|Hf0]]]; rewrite Hf0; exact I.
